@@ -37,6 +37,8 @@ inductive Task where
   | nat (k : NatKind) (f : Nat) (r : Nat) (items : List Val) (accL : List Val) (accV : Val)
   | loopL (x : Nat) (items : List Val) (body : E)
   | loopG (x : Nat) (gl : List Val) (segs : List (E × E)) (tail : E) (body : E)
+  /-- display the values `todo` (a work list; `.str .rb` closes a container) into tokens `acc` -/
+  | disp (todo : List Val) (acc : List Val)
   deriving Inhabited
 
 abbrev Res := Sig × St
@@ -125,13 +127,21 @@ def run (cfg : Cfg) (P : Prog) : Nat → Task → St → Res
       | .emit tag none => (.ok .null, emitEv σ ⟨tag, none⟩)
       | .emit tag (some e) =>
         match run cfg P fuel (.ev e) σ with
-        | (.ok v, σ') => (.ok .null, emitEv σ' ⟨tag, some (shown σ' v)⟩)
+        | (.ok v, σ') =>
+          -- displaying the value may run `@display` functions (also of elements of containers,
+          -- at any depth): their errors are the errors of this expression, unchanged
+          match run cfg P fuel (.disp [v] []) σ' with
+          | (.vals ts, σ'') => (.ok .null, emitEv σ'' ⟨tag, some (.toks v ts)⟩)
+          | r => r
         | r => r
       | .emitI tag es =>
         -- the holes are evaluated left to right while the string is being built; an error in a
         -- hole abandons the string (nothing is printed)
         match run cfg P fuel (.evs es []) σ with
-        | (.vals vs, σ') => (.ok .null, emitEv σ' ⟨tag, some (.parts vs)⟩)
+        | (.vals vs, σ') =>
+          match run cfg P fuel (.disp (vs.intersperse (.str .sep)) []) σ' with
+          | (.vals ts, σ'') => (.ok .null, emitEv σ'' ⟨tag, some (.parts ts)⟩)
+          | r => r
         | r => r
       | .mkList es =>
         match run cfg P fuel (.evs es []) σ with
@@ -313,6 +323,20 @@ def run (cfg : Cfg) (P : Prog) : Nat → Task → St → Res
         | (.cont, σ') => run cfg P fuel (.loopL x rest body) σ'
         | (.brk, σ') => (.ok .null, σ')
         | r => r
+    | .disp todo acc =>
+      match todo with
+      | [] => (.vals acc, σ)
+      | .list r :: rest =>
+        run cfg P fuel (.disp (σ.heap.getD r [] ++ .str .rb :: rest) (acc ++ [.str .lb])) σ
+      | .obj c :: rest =>
+        match (P.classes.getD c {}).dispFn with
+        | some f =>
+          match run cfg P fuel (.callF f [.obj c]) σ with
+          | (.ok (.str (.lit n)), σ') => run cfg P fuel (.disp rest (acc ++ [.str (.shown n)])) σ'
+          | (.ok _, σ') => (.err (errK (.other 13)), σ')
+          | r => r
+        | none => run cfg P fuel (.disp rest (acc ++ [.obj c])) σ
+      | v :: rest => run cfg P fuel (.disp rest (acc ++ [v])) σ
     | .loopG x gl segs tail body =>
       match segs with
       | [] =>
